@@ -20,44 +20,83 @@ theorem flushW_dirty (mk : Mk) (w : WSt) : (flushW mk w).1.dirty = w.dirty := by
 
 theorem addW_dirty (mk : Mk) (w : WSt) (e : Op) (sz : Nat) : (addW mk w e sz).1.dirty = w.dirty := by
   unfold addW
-  simp only
   split
-  · rw [flushW_dirty]
+  · rw [flushW_dirty]; rfl
   · rfl
 
-/-- no fault (and no fragment waiting to be cut off): `flushWF` is `flushW` -/
-theorem flushWF_nofault (fc : FCfg) (mk : Mk) (s : FSt) (h : s.rs = []) (hd : s.w.dirty = false) :
+/-- the count trigger keeps a fault-free buffer below the bound -/
+theorem addW_cnt (mk : Mk) (w : WSt) (e : Op) (sz : Nat) : (addW mk w e sz).1.buf.length < maxEnts := by
+  unfold addW
+  split
+  · by_cases hb : (w.push e sz).buf = []
+    · rw [flushW_nil mk _ hb, hb]; exact maxEnts_pos
+    · rw [flushW_cons mk _ hb]; exact maxEnts_pos
+  · rename_i h
+    simp only [WSt.full, not_or, Nat.not_le] at h; exact h.2
+
+theorem writeBlockF_nofault (fc : FCfg) (mk : Mk) (s : FSt) (h : s.rs = []) (chunk rest : List Op) (restSzs : List Nat) :
+    writeBlockF fc mk s chunk rest restSzs =
+      ({ s with w := { s.w with buf := rest, bufSize := restSzs.sum, szs := restSzs, pos := s.w.pos + 16 + (mk chunk).plen },
+                d := s.d.applyAll [.write s.w.path s.w.pos (hdrCells (mk chunk)),
+                                   .write s.w.path (s.w.pos + 16) (payCells (mk chunk)), .write s.w.path 0 (fhCells s.w.nl)],
+                ops := s.ops ++ [(.write s.w.path s.w.pos (hdrCells (mk chunk)), .ok),
+                                 (.write s.w.path (s.w.pos + 16) (payCells (mk chunk)), .ok),
+                                 (.write s.w.path 0 (fhCells s.w.nl), .ok)],
+                rs := [] }, true) := by
+  unfold writeBlockF
+  simp [FSt.issue, nextRes, h, applyRes_ok, Res.isOk, Disk.applyAll]
+
+/-- no fault (and no fragment waiting to be cut off), and a buffer that goes into one block:
+    `flushWF` is `flushW` -/
+theorem flushWF_nofault (fc : FCfg) (mk : Mk) (s : FSt) (h : s.rs = []) (hd : s.w.dirty = false)
+    (hs : fc.splitsOversizedBuffer = false ∨ s.w.buf.length ≤ maxEnts) :
     (flushWF fc mk s).w = (flushW mk s.w).1 ∧ (flushWF fc mk s).d = s.d.applyAll (flushW mk s.w).2 ∧
     (flushWF fc mk s).rs = [] ∧ (flushWF fc mk s).failed = s.failed := by
+  have hsplit : (fc.splitsOversizedBuffer && decide (maxEnts < s.w.buf.length)) = false := by
+    rcases hs with hs | hs
+    · simp [hs]
+    · simp [Nat.not_lt.mpr hs]
   by_cases hb : s.w.buf = []
-  · have : flushWF fc mk s = s := by unfold flushWF; simp [hd, hb]
+  · have : flushWF fc mk s = s := by unfold flushWF; simp [hd, hb, flushBlocks]
     rw [this, flushW_nil mk s.w hb]
     exact ⟨rfl, rfl, h, rfl⟩
   · rw [flushW_cons mk s.w hb]
-    unfold flushWF
-    simp [hd, hb, FSt.issue, nextRes, h, applyRes_ok, Res.isOk, Disk.applyAll, Nat.add_assoc]
+    have : flushWF fc mk s = (writeBlockF fc mk s s.w.buf [] []).1 := by
+      unfold flushWF
+      simp only [hd, Bool.and_false, Bool.false_eq_true, if_false, Bool.not_true]
+      rw [flushBlocks]
+      split
+      · rename_i hb'; exact absurd hb' hb
+      · simp only [hsplit, Bool.false_eq_true, if_false]
+    rw [this, writeBlockF_nofault fc mk s h]
+    simp [Disk.applyAll, Nat.add_assoc]
 
-theorem addWF_nofault (fc : FCfg) (mk : Mk) (s : FSt) (h : s.rs = []) (hd : s.w.dirty = false) (e : Op) (sz : Nat) :
+theorem addWF_nofault (fc : FCfg) (mk : Mk) (s : FSt) (h : s.rs = []) (hd : s.w.dirty = false)
+    (hs : fc.splitsOversizedBuffer = false ∨ s.w.buf.length < maxEnts) (e : Op) (sz : Nat) :
     (addWF fc mk s e sz).w = (addW mk s.w e sz).1 ∧ (addWF fc mk s e sz).d = s.d.applyAll (addW mk s.w e sz).2 ∧
     (addWF fc mk s e sz).rs = [] := by
   unfold addWF addW
   simp only
   split
-  · have := flushWF_nofault fc mk { s with w := { s.w with buf := s.w.buf ++ [e], bufSize := s.w.bufSize + sz } } h hd
+  · have := flushWF_nofault fc mk { s with w := s.w.push e sz } h hd
+      (hs.imp id (fun hl => by simp [WSt.push]; omega))
     exact ⟨this.1, this.2.1, this.2.2.1⟩
   · exact ⟨rfl, rfl, h⟩
 
 theorem addManyWF_nofault (fc : FCfg) (mk : Mk) (items : List (Op × Nat)) : ∀ (s : FSt), s.rs = [] → s.w.dirty = false →
+    (fc.splitsOversizedBuffer = false ∨ s.w.buf.length < maxEnts) →
     (addManyWF fc mk s items).w = (addManyW mk s.w items).1 ∧
     (addManyWF fc mk s items).d = s.d.applyAll (addManyW mk s.w items).2 ∧ (addManyWF fc mk s items).rs = [] := by
   induction items with
-  | nil => intro s h _; exact ⟨rfl, rfl, h⟩
+  | nil => intro s h _ _; exact ⟨rfl, rfl, h⟩
   | cons it rest ih =>
-    intro s h hd
+    intro s h hd hs
     obtain ⟨e, sz⟩ := it
-    have h1 := addWF_nofault fc mk s h hd e sz
+    have h1 := addWF_nofault fc mk s h hd hs e sz
     have hd1 : (addWF fc mk s e sz).w.dirty = false := by rw [h1.1, addW_dirty]; exact hd
-    have h2 := ih { addWF fc mk s e sz with failed := false } h1.2.2 hd1
+    have hs1 : fc.splitsOversizedBuffer = false ∨ (addWF fc mk s e sz).w.buf.length < maxEnts :=
+      Or.inr (by rw [h1.1]; exact addW_cnt mk s.w e sz)
+    have h2 := ih { addWF fc mk s e sz with failed := false } h1.2.2 hd1 hs1
     simp only [addManyWF, addManyW]
     refine ⟨?_, ?_, h2.2.2⟩
     · rw [h2.1]; simp only; rw [h1.1]
@@ -69,9 +108,10 @@ theorem addManyW_dirty (mk : Mk) (items : List (Op × Nat)) : ∀ w : WSt, (addM
   | cons it rest ih => intro w; obtain ⟨e, sz⟩ := it; simp only [addManyW]; rw [ih, addW_dirty]
 
 /-- no fault and the descriptor at the end of the file: `syncWF` leaves the file `syncW` leaves -/
-theorem syncWF_nofault_disk (c : Cfg) (fc : FCfg) (mk : Mk) (s : FSt) (h : s.rs = []) (hd : s.w.dirty = false) :
+theorem syncWF_nofault_disk (c : Cfg) (fc : FCfg) (mk : Mk) (s : FSt) (h : s.rs = []) (hd : s.w.dirty = false)
+    (hs : fc.splitsOversizedBuffer = false ∨ s.w.buf.length ≤ maxEnts) :
     (syncWF c fc mk s).d = s.d.applyAll (syncW c mk s.w).2 := by
-  have hf := flushWF_nofault fc mk { s with failed := false } h hd
+  have hf := flushWF_nofault fc mk { s with failed := false } h hd hs
   unfold syncWF syncW
   simp only [hf.2.2.2, Bool.false_eq_true, if_false, FSt.issue, hf.2.2.1, nextRes, applyRes_ok, Res.isOk,
     Bool.not_true]
